@@ -9,4 +9,5 @@ pub mod model;
 pub mod oracle;
 pub mod probes;
 pub mod report;
+pub mod scenarios;
 pub mod seq;
